@@ -7,7 +7,8 @@ import YashModel.Exec.Spec
 namespace YashModel.Exec
 
 /-- the Spec context that a frame stack stands for -/
-def ctxOf (stack : List Frame) : Ctx := ⟨loops stack, stack.contains .condition⟩
+def ctxOf (stack : List Frame) : Ctx :=
+  ⟨loops stack, stack.contains .condition, stack.contains .trap || stack.contains .subshell⟩
 
 /-- `b` is `a` except possibly for the frame stack (which the Spec never looks at) -/
 def SameButStack (a b : St) : Prop := ∃ st, b = { a with stack := st }
